@@ -17,7 +17,7 @@ func init() {
 		ID:    "C07",
 		Level: "model_checking",
 		Rule: "(a) explicit-state BFS of the real buffered file reader: for every file size N in {0,1,2,100,2047..2049,4095..4097,6143..6145,8191..8193,12289} the operations Seek(o);Read(k) and ReadAt(k,o) with o in {0..8} U {b-4..b+4 : b multiple of 1024 <= N} U {N-8..N} and k in {1,2,3,17,4095,4096,4097} are applied from every reachable window state (state key = (minOffset,maxOffset) read by reflection) until no new state appears; in every state the window must hold the file's bytes, on every transition the returned string must equal file[o:o+k] (or \"\" past the end); " +
-			"(b) engine level: programs (literal, anchors reading one byte back, greedy loop to end of file then backtrack, lazy loop, capture + back-reference, replace, whole line, far-back backtracking) x files with the motif placed at every offset around 0/2048/4096/6144/8192 and at the end: RunFiles(NOTHING) must equal Run(string) in every field but Filename; non-trivial = transitions whose seek leaves the current window, and engine cases with a match",
+			"(b) engine level: programs (literal, anchors reading one byte back, greedy loop to end of file then backtrack, lazy loop, capture + back-reference, replace, whole line, far-back backtracking) x files with the motif placed at every offset around 0/2048/4096/6144/8192 and at the end x four ways of naming the file (its path, the directory holding it, a symbolic link to it, the directory holding the link): RunFiles(NOTHING) must equal Run(string) in every field but Filename; non-trivial = transitions whose seek leaves the current window, and engine cases with a match",
 		Assume: []string{"reflection reads the unexported window fields of files.BufferedFile; if a field disappears the search degrades to all operation sequences of length <= 3 and the evidence says state_key=unavailable"},
 		Budget: map[string]int{"quick": 150, "thorough": 1200},
 		Run:    runC07,
@@ -59,10 +59,10 @@ func (o winOp) String() string {
 // 10 000-byte file) and which moved between the two. A refactoring that renames or reorders the
 // fields is followed automatically; if no such pair exists the search degrades (see windowBFS).
 var winFields struct {
-	probed    bool
-	ok        bool
-	lo, hi    int // field indices
-	buf       int
+	probed bool
+	ok     bool
+	lo, hi int // field indices
+	buf    int
 }
 
 func bufferedStruct(r *files.Reader) (reflect.Value, bool) {
@@ -505,31 +505,48 @@ func runC07(c *Ctx) {
 				}
 				content := string(b)
 				caseNo++
-				path := filepath.Join(dir, fmt.Sprintf("e%d", caseNo%7))
-				os.WriteFile(path, b, 0o644)
-				c.Eval(1)
+				// four ways of naming the same bytes: the file itself, the directory that holds it,
+				// a symbolic link to it, the directory that holds the link
+				slot := fmt.Sprint(caseNo % 7)
+				plainDir, linkDir := filepath.Join(dir, "p"+slot), filepath.Join(dir, "l"+slot)
+				os.MkdirAll(plainDir, 0o755)
+				os.MkdirAll(linkDir, 0o755)
+				filePath, linkPath := filepath.Join(plainDir, "e"), filepath.Join(linkDir, "lnk")
+				os.WriteFile(filePath, b, 0o644)
+				if _, err := os.Lstat(linkPath); err != nil {
+					os.Symlink(filepath.Join("..", "p"+slot, "e"), linkPath)
+				}
 				want, pi1 := runSafe(v, content)
-				var got engine.Matches
-				pi2 := guard(func() { got = v.RunFiles([]string{path}, engine.NOTHING, false) })
-				rec := map[string]any{"kind": "file-vs-string", "src": prog, "size": size, "motif_at": p}
 				if pi1 != nil {
 					continue
 				}
-				if pi2 != nil {
-					c.Violation("RUNFILES-PANIC "+pi2.Site, fmt.Sprintf("%q on a %d-byte file (motif at %d) panics: %s", prog, size, p, pi2.Msg), rec)
-					continue
+				access := []struct{ how, arg, reported string }{
+					{"file", filePath, filePath}, {"directory", plainDir, plainDir + "/e"}, {"link", linkPath, linkPath}, {"directory-with-link", linkDir, linkDir + "/lnk"}}
+				if size > 4097 && p != plist[0] && p != plist[len(plist)-1] {
+					access = access[:1] // the large files take every motif position through the plain path only
 				}
-				if len(want) > 0 {
-					c.Nontrivial(1)
-				}
-				w, g := matchRecords(want), matchRecords(got)
-				for i := range got {
-					if got[i].Filename != path {
-						c.Violation("FILENAME", fmt.Sprintf("%q: match reports filename %q for file %q", prog, got[i].Filename, path), rec)
+				for _, ac := range access {
+					path := ac.reported
+					c.Eval(1)
+					var got engine.Matches
+					pi2 := guard(func() { got = v.RunFiles([]string{ac.arg}, engine.NOTHING, false) })
+					rec := map[string]any{"kind": "file-vs-string", "src": prog, "size": size, "motif_at": p, "access": ac.how}
+					if pi2 != nil {
+						c.Violation("RUNFILES-PANIC "+pi2.Site, fmt.Sprintf("%q on a %d-byte file (motif at %d) panics: %s", prog, size, p, pi2.Msg), rec)
+						continue
 					}
-				}
-				if strings.Join(w, "\n") != strings.Join(g, "\n") {
-					c.Violation("FILE-VS-STRING "+strings.Fields(prog)[0]+fmt.Sprint(strings.Count(prog, "\n")+1), fmt.Sprintf("%q on a %d-byte file (motif at %d): file gives %d matches %.200v, string gives %d matches %.200v", prog, size, p, len(g), g, len(w), w), rec)
+					if len(want) > 0 {
+						c.Nontrivial(1)
+					}
+					w, g := matchRecords(want), matchRecords(got)
+					for i := range got {
+						if got[i].Filename != path {
+							c.Violation("FILENAME", fmt.Sprintf("%q: match reports filename %q for file %q", prog, got[i].Filename, path), rec)
+						}
+					}
+					if strings.Join(w, "\n") != strings.Join(g, "\n") {
+						c.Violation("FILE-VS-STRING "+ac.how+" "+strings.Fields(prog)[0]+fmt.Sprint(strings.Count(prog, "\n")+1), fmt.Sprintf("%q on a %d-byte file (motif at %d) named through its %s: file gives %d matches %.200v, string gives %d matches %.200v", prog, size, p, ac.how, len(g), g, len(w), w), rec)
+					}
 				}
 				if caseNo%50 == 0 {
 					runtime.GC()
